@@ -251,6 +251,8 @@ def default_ans(base, k):
         return "I"
     if base == "S4":
         return "S" if k % 4 == 0 else "F"
+    if base in ("S", "S2", "S3"):   # success-rich policies keep the mesh at its cap (overflow bookkeeping)
+        return "S" if k % {"S": 1, "S2": 2, "S3": 3}[base] == 0 else "F"
     if base == "E3":
         return "E" if k % 3 == 0 else "F"
     raise ValueError(base)
